@@ -113,3 +113,17 @@ def isolated(fn, *args):
         data = f.read()
     os.waitpid(pid, 0)
     return pickle.loads(data)
+
+
+def db_digest():
+    """Digest of the contents of the bundled modification databases (id, masses, composition of every entry)."""
+    p = pt()
+    h = 0
+    for name in ('UNIMOD_DB', 'PSI_MOD_DB', 'XLMOD_DB', 'MONOSACCHARIDES_DB'):
+        db = getattr(p, name, None)
+        n = 0
+        for e in (db or ()):
+            h ^= hash((name, e.id, e.name, e.mono_mass, e.avg_mass, e.composition))
+            n += 1
+        h ^= hash((name, n))
+    return h
